@@ -408,6 +408,68 @@ def run(repo: Repo, chk: Check) -> None:
     check_memory(repo, chk, ['pytezos.michelson.types.big_map.', 'pytezos.context.impl.'],
                  'a lookup in one big_map is answered with what another big_map (or an earlier state) held')
 
+    # ---- the instruction layer: "no binding" is None, never a falsy value ------------------------------------------------------------------------
+    # `get` / `update` of a map or big_map answer None for an absent key; a present value can be falsy in Python (empty string / bytes / list /
+    # map, False), so GET, GET_AND_UPDATE and UPDATE must decide absence with `is None`.  Reported: a bare truth test of such a result.
+    chk.set_clause('C15.7')
+    n_opt = optional_results_tested_by_identity(repo, chk)
+    chk.minimum('map lookup / update call sites in the instruction layer', n_opt, 3)
+
+
+def _optional_names(fn) -> Dict[str, int]:
+    """local names bound to the (possibly None) result of <x>.get(...) or to the first component of <x>.update(...) / get_and_update"""
+    import ast
+    out: Dict[str, int] = {}
+    for a in fn.args.posonlyargs + fn.args.args + fn.args.kwonlyargs:  # a helper taking the optional result
+        if a.annotation is not None and 'Optional' in ast.unparse(a.annotation):
+            out[a.arg] = fn.lineno
+    for n in ast.walk(fn):
+        if not isinstance(n, ast.Assign) or len(n.targets) != 1 or not isinstance(n.value, ast.Call) or not isinstance(n.value.func, ast.Attribute):
+            continue
+        m, tgt = n.value.func.attr, n.targets[0]
+        if m == 'get' and isinstance(tgt, ast.Name):
+            out[tgt.id] = n.lineno
+        elif m in ('update', 'get_and_update') and isinstance(tgt, ast.Tuple) and tgt.elts and isinstance(tgt.elts[0], ast.Name) and tgt.elts[0].id != '_':
+            out[tgt.elts[0].id] = n.lineno
+    return out
+
+
+def _truth_tests(fn, names) -> List[Any]:
+    import ast
+    bad = []
+
+    def bare(e):
+        if isinstance(e, ast.Name) and e.id in names:
+            return [e]
+        if isinstance(e, ast.UnaryOp) and isinstance(e.op, ast.Not):
+            return bare(e.operand)
+        if isinstance(e, ast.BoolOp):
+            return [x for v in e.values for x in bare(v)]
+        return []
+
+    for n in ast.walk(fn):
+        if isinstance(n, (ast.If, ast.IfExp, ast.While, ast.Assert)):
+            bad += bare(n.test)
+    return bad
+
+
+def optional_results_tested_by_identity(repo: Repo, chk: Check) -> int:
+    import ast
+    total = 0
+    mi = repo.module('pytezos.michelson.instructions.struct')
+    total = sum(1 for n in ast.walk(mi.tree) if isinstance(n, ast.Call) and isinstance(n.func, ast.Attribute) and n.func.attr in ('get', 'update', 'get_and_update'))
+    funcs = [fi for ci in mi.classes.values() for fi in ci.methods.values()] + list(mi.functions.values())
+    if True:
+        for fi in funcs:
+            names = _optional_names(fi.node)
+            for e in _truth_tests(fi.node, names):
+                chk.ob('R-GUARD', fi.qualname, False, f'`{e.id}` (None when the key has no binding) is tested with `is None`', f'{mi.relpath}:{e.lineno}',
+                       {'bound_at_line': names[e.id]},
+                       what=f'{fi.qualname} decides whether the key had a binding by the truth value of `{e.id}`: a bound value that is falsy in Python (empty string, '
+                            'empty bytes, False, an empty list / map / set) is reported as absent, so GET / GET_AND_UPDATE disagree with the dictionary model')
+    chk.ob('R-GUARD', 'pytezos.michelson.instructions.struct', True, f'{total} lookup / update call sites, no optional result tested by truth value', mi.relpath)
+    return total
+
 
 class _GKH(BMHooks):
     def call(self, it, callee, args, kwargs, node):
@@ -419,5 +481,9 @@ class _GKH(BMHooks):
 
 
 def controls(chk: Check) -> None:
+    import ast as _ast
+    fn = _ast.parse("def f(src, key):\n    prev, dst = src.update(key, None)\n    return 1 if prev else 0\n").body[0]
+    if len(_truth_tests(fn, _optional_names(fn))) != 1:
+        raise AnalysisError('optional-result truth test control failed')
     if norm_items(App('sorted', [(Sym('b'), Sym('x')), (Sym('a'), Sym('y'))], 'first')) != [('$a', '$y'), ('$b', '$x')]:
         raise AnalysisError('items normaliser control failed')
